@@ -139,7 +139,7 @@ def t_str(a):
 class Int:
     """Abstract integer of width w.  Either concrete (val is an int, bits None) or symbolic
     (bits is a tuple of w terms, LSB first)."""
-    __slots__ = ("w", "signed", "val", "bits", "tags", "kind", "aff")
+    __slots__ = ("w", "signed", "val", "bits", "tags", "kind", "aff", "sf")
 
     def __init__(self, w, signed=False, val=None, bits=None, tags=frozenset(), kind="int", aff=None):
         self.w = w
@@ -147,6 +147,7 @@ class Int:
         self.tags = tags
         self.kind = kind  # int | bool | char
         self.aff = aff    # affine form over named atoms: (tuple of (atom, coef), const) — only meaningful for non-concrete values
+        self.sf = None    # sum fields (see sf_lift): the word as a concatenation of independent counters of 0/1 terms
         if bits is not None:
             # normalise to concrete if all bits constant
             v = 0
@@ -312,9 +313,157 @@ def aff_binop(op, a, b):
     return None
 
 
+# ---------------------------------------------------------------------------------------------------------------------- sum fields
+# A second description of a word, carried next to its bits: a tuple of fields (lo, width, terms) — bits lo..lo+width hold
+# (the number of terms that are 1) mod 2^width, every bit outside the fields is 0.  It is what in-register counting ("SWAR" population
+# counts: mask, shift, add, fold) keeps exact when the per-bit polynomials have long become too large: adding two words whose fields line up
+# adds the counters, masking keeps / drops / truncates them, shifting moves them.  Every operation either yields the exact description or None.
+
+def sf_lift(x):
+    if x.sf is not None:
+        return x.sf
+    if x.is_conc():
+        return tuple((i, 1, (ONE,)) for i in range(x.w) if (x.val >> i) & 1)
+    out = []
+    for i, t in enumerate(x.bits):
+        if t is TOP:
+            return None
+        if len(t):
+            out.append((i, 1, (t,)))
+    return tuple(out)
+
+
+def _sf_exact_width(f):
+    """bits a field really occupies: an exact counter of n terms needs n.bit_length() bits"""
+    lo, wd, terms = f
+    return min(wd, len(terms).bit_length())
+
+
+def sf_add(w, fa, fb):
+    if fa is None or fb is None:
+        return None
+    by_lo = {}
+    for f in list(fa) + list(fb):
+        if len(f[2]) >= (1 << f[1]):
+            return None         # a counter already reduced modulo 2^width: sums of such are not counters
+        by_lo.setdefault(f[0], []).append(f)
+    out = []
+    los = sorted(by_lo)
+    for i, lo in enumerate(los):
+        terms = tuple(t for f in by_lo[lo] for t in f[2])
+        need = len(terms).bit_length()
+        nxt = los[i + 1] if i + 1 < len(los) else None
+        if nxt is not None and lo + need > nxt:
+            return None         # a carry could run into the next counter
+        # operands whose fields overlap without starting at the same bit
+        for f in by_lo[lo]:
+            if nxt is not None and lo + _sf_exact_width(f) > nxt:
+                return None
+        out.append((lo, min(need, w - lo), terms))
+    return tuple(out)
+
+
+def sf_mask(fa, mask):
+    if fa is None:
+        return None
+    out = []
+    for f in fa:
+        lo, wd, terms = f
+        ew = _sf_exact_width(f) if len(terms) < (1 << wd) else wd
+        m = (mask >> lo) & ((1 << ew) - 1)
+        if m == 0:
+            continue
+        if m == (1 << ew) - 1:
+            out.append(f)
+        elif m & (m + 1) == 0:
+            out.append((lo, m.bit_length(), terms))        # the low bits of the counter: the count modulo 2^k
+        else:
+            return None
+    return tuple(out)
+
+
+def sf_shift(fa, n, w, left):
+    if fa is None:
+        return None
+    out = []
+    for (lo, wd, terms) in fa:
+        if left:
+            if lo + n >= w:
+                continue
+            out.append((lo + n, min(wd, w - lo - n), terms))
+        else:
+            if lo >= n:
+                out.append((lo - n, wd, terms))
+            elif lo + _sf_exact_width((lo, wd, terms)) <= n and len(terms) < (1 << wd):
+                continue
+            else:
+                return None
+    return tuple(out)
+
+
+def sf_union(fa, fb):
+    """OR / XOR of words whose counters occupy disjoint bits"""
+    if fa is None or fb is None:
+        return None
+    fs = sorted(list(fa) + list(fb))
+    for x, y in zip(fs, fs[1:]):
+        if x[0] + x[1] > y[0]:
+            return None
+    return tuple(fs)
+
+
+def _sf_result(op, a, b, r):
+    if r.is_conc():
+        return None
+    base = op.replace("Unchecked", "")
+    if base == "Add":
+        return sf_add(r.w, sf_lift(a), sf_lift(b))
+    if a.sf is None and b.sf is None:
+        return None
+    if base == "BitAnd":
+        if b.is_conc():
+            return sf_mask(a.sf, b.val)
+        if a.is_conc():
+            return sf_mask(b.sf, a.val)
+        return None
+    if base in ("BitOr", "BitXor"):
+        return sf_union(sf_lift(a), sf_lift(b))
+    if base in ("Shl", "Shr") and b.is_conc() and a.sf is not None and not (base == "Shr" and a.signed):
+        return sf_shift(a.sf, b.val, r.w, base == "Shl")
+    if base == "Mul":
+        for x, y in ((a, b), (b, a)):
+            if y.is_conc() and x.sf is not None and 0 < bin(y.val).count("1") <= 16:
+                acc = ()
+                for i in range(y.val.bit_length()):
+                    if (y.val >> i) & 1:
+                        acc = sf_add(r.w, acc, sf_shift(x.sf, i, r.w, True))
+                        if acc is None:
+                            return None
+                return acc
+    return None
+
+
+def sf_attach(r, sf):
+    """record the description on a result; bits the ANF lost (TOP) are refined to 0 where no counter lives"""
+    if sf is None or r.is_conc():
+        return r
+    r.sf = sf
+    if r.bits is not None and any(t is TOP for t in r.bits):
+        live = set()
+        for (lo, wd, terms) in sf:
+            live.update(range(lo, lo + wd))
+        r.bits = tuple((t if (i in live or t is not TOP) else ZERO) for i, t in enumerate(r.bits))
+    return r
+
+
 def binop(op, a, b):
     """returns Int (or tuple for WithOverflow ops handled by caller)"""
     r = _binop(op, a, b)
+    if isinstance(r, Int) and not r.is_conc() and op.replace("Unchecked", "") in ("Add", "BitAnd", "BitOr", "BitXor", "Shl", "Shr", "Mul"):
+        try:
+            sf_attach(r, _sf_result(op, a, b, r))
+        except (TypeError, AttributeError):
+            pass
     if isinstance(r, Int) and not r.is_conc() and op not in ("Eq", "Ne", "Lt", "Le", "Gt", "Ge") and (a.aff is not None or b.aff is not None):
         af = aff_binop(op, a, b)
         if af is not None:
@@ -506,11 +655,18 @@ def cast(a, w, signed, kind="int"):
     if w < a.w:
         # truncation is not linear: a derived atom (so that a comparison on the truncated value is recognisably not the original one)
         af = None if a.aff is None else aff_pack({"(trunc%d %s)" % (w, aff_str(a.aff)): 1}, 0)
-        return Int(w, signed, bits=bits[:w], kind=kind, aff=af)
+        r = Int(w, signed, bits=bits[:w], kind=kind, aff=af)
+        if a.sf is not None and not r.is_conc():
+            r.sf = sf_mask(a.sf, (1 << w) - 1)
+        return r
     if w == a.w:
-        return Int(w, signed, bits=bits[:w], kind=kind, aff=a.aff)
-    fill = bits[-1] if a.signed else ZERO
-    return Int(w, signed, bits=bits + [fill] * (w - a.w), kind=kind, aff=a.aff)
+        r = Int(w, signed, bits=bits[:w], kind=kind, aff=a.aff)
+    else:
+        fill = bits[-1] if a.signed else ZERO
+        r = Int(w, signed, bits=bits + [fill] * (w - a.w), kind=kind, aff=a.aff)
+    if a.sf is not None and not r.is_conc() and not a.signed:
+        r.sf = a.sf
+    return r
 
 
 def popcount_terms(a):
